@@ -12,8 +12,11 @@ Section Frames.
   Definition MIN_NORM : num := nlit 1 (-10).
 
   (* Vector3::try_normalize(1e-10): None when norm <= min_norm *)
-  Definition try_normalize3 (v : V3) : option V3 :=
-    let n := norm3 v in if n <=? MIN_NORM then None else Some (div3 v n).
+  Definition try_normalize3_min (v : V3) (min_norm : num) : option V3 :=
+    let n := norm3 v in if n <=? min_norm then None else Some (div3 v n).
+  Definition try_normalize3 (v : V3) : option V3 := try_normalize3_min v MIN_NORM.
+  (* the cross product with the raw second argument b is tested against 1e-10 * |b|: a test on the sine of the angle *)
+  Definition try_cross (v b : V3) : option V3 := try_normalize3_min v (MIN_NORM * norm3 b).
 
   (* a frame: images of the x, y and z axes *)
   Definition frame : Type := (V3 * V3 * V3)%type.
@@ -21,22 +24,22 @@ Section Frames.
   Definition obind {A B} (o : option A) (f : A -> option B) : option B := match o with Some a => f a | None => None end.
 
   Definition basis_xy (a b : V3) : option frame :=
-    obind (try_normalize3 a) (fun e0 => obind (try_normalize3 (cross3 e0 b)) (fun e2 =>
+    obind (try_normalize3 a) (fun e0 => obind (try_cross (cross3 e0 b) b) (fun e2 =>
     obind (try_normalize3 (cross3 e2 e0)) (fun e1 => Some (e0, e1, e2)))).
   Definition basis_xz (a b : V3) : option frame :=
-    obind (try_normalize3 a) (fun e0 => obind (try_normalize3 (cross3 b e0)) (fun e1 =>
+    obind (try_normalize3 a) (fun e0 => obind (try_cross (cross3 b e0) b) (fun e1 =>
     obind (try_normalize3 (cross3 e0 e1)) (fun e2 => Some (e0, e1, e2)))).
   Definition basis_yz (a b : V3) : option frame :=
-    obind (try_normalize3 a) (fun e1 => obind (try_normalize3 (cross3 e1 b)) (fun e0 =>
+    obind (try_normalize3 a) (fun e1 => obind (try_cross (cross3 e1 b) b) (fun e0 =>
     obind (try_normalize3 (cross3 e0 e1)) (fun e2 => Some (e0, e1, e2)))).
   Definition basis_yx (a b : V3) : option frame :=
-    obind (try_normalize3 a) (fun e1 => obind (try_normalize3 (cross3 b e1)) (fun e2 =>
+    obind (try_normalize3 a) (fun e1 => obind (try_cross (cross3 b e1) b) (fun e2 =>
     obind (try_normalize3 (cross3 e1 e2)) (fun e0 => Some (e0, e1, e2)))).
   Definition basis_zx (a b : V3) : option frame :=
-    obind (try_normalize3 a) (fun e2 => obind (try_normalize3 (cross3 e2 b)) (fun e1 =>
+    obind (try_normalize3 a) (fun e2 => obind (try_cross (cross3 e2 b) b) (fun e1 =>
     obind (try_normalize3 (cross3 e1 e2)) (fun e0 => Some (e0, e1, e2)))).
   Definition basis_zy (a b : V3) : option frame :=
-    obind (try_normalize3 a) (fun e2 => obind (try_normalize3 (cross3 b e2)) (fun e0 =>
+    obind (try_normalize3 a) (fun e2 => obind (try_cross (cross3 b e2) b) (fun e0 =>
     obind (try_normalize3 (cross3 e2 e0)) (fun e1 => Some (e0, e1, e2)))).
 
   (* iso3_from_xyo: the rotation columns before inversion *)
